@@ -238,7 +238,7 @@ def rule_m2(ctx):
             t = sb.term(sw)
             tgt = [x for v, x in t["targets"] if info[1].get(v) == variant] or [t["otherwise"]]
             pushes = sorted(b for b in sb.reachable(tgt, blocked={hdr} if hdr is not None else (), succ=succ)
-                            if sb.term(b)["k"] == "call" and mir.last_seg(mir.callee(sb.term(b)) or "") == "push")
+                            if sb.term(b)["k"] == "call" and mir.last_seg(mir.callee(sb.term(b)) or "") in ("push", "insert"))     # Vec or (ordered) set of split points
             ok = len(pushes) >= want_n and all(sb.path(tgt[0], [hdr] if hdr is not None else sb.returns(), blocked={p}, succ=succ) is None for p in pushes[:want_n])
             if ok:
                 res.ok({"function": fid, "pattern": variant, "split_points_on_every_path": want_n})
